@@ -81,7 +81,7 @@ class PolicyDirectoryMonitor(multiprocessing.Process):
         """
         policy_files = get_json_files(self.policy_directory)
         for f in set(policy_files) - set(self.policy_files):
-            self.file_timestamps[f] = 0
+            self.file_timestamps[f] = None
         for f in set(self.policy_files) - set(policy_files):
             self.logger.info("Removing policies for file: {}".format(f))
             self.file_timestamps.pop(f, None)
@@ -93,7 +93,9 @@ class PolicyDirectoryMonitor(multiprocessing.Process):
 
         for f in sorted(self.file_timestamps.keys()):
             t = os.path.getmtime(f)
-            if t > self.file_timestamps[f]:
+            # Any change of the modification time is a change of the file:
+            # a repair that restores a backup brings an OLDER time back.
+            if t != self.file_timestamps[f]:
                 self.logger.info("Loading policies for file: {}".format(f))
                 self.file_timestamps[f] = t
                 old_p = [k for k, v in self.policy_map.items() if v == f]
